@@ -52,6 +52,10 @@ type RunnerResult struct {
 	ParseErrors map[string]*parser.ParseError
 
 	Vcl *VCL
+
+	// failed is set when the run was aborted by a syntax error but the result is still
+	// returned in order to print the parse errors as JSON. The lint command must exit non-zero.
+	failed bool
 }
 
 type StatsResult struct {
@@ -185,6 +189,7 @@ func (r *Runner) Run(rslv resolver.Resolver) (*RunnerResult, error) {
 		LintErrors:  r.lintErrors,
 		ParseErrors: r.parseErrors,
 		Vcl:         vcl,
+		failed:      err != nil,
 	}, nil
 }
 
